@@ -427,7 +427,10 @@ class Interp:
                 k: getattr(_math, k) for k in dir(_math)
                 if not k.startswith("_")}),
             "collections": StubModule(
-                "collections", {"deque": collections.deque}),
+                "collections", {"deque": collections.deque,
+                                "defaultdict": collections.defaultdict,
+                                "OrderedDict": collections.OrderedDict,
+                                "Counter": collections.Counter}),
             "functools": StubModule("functools", {
                 "partial": _functools.partial, "reduce": _functools.reduce,
                 "lru_cache": _identity_decorator, "cache": lambda f: f,
